@@ -6,7 +6,7 @@ set -u
 PATCH=$(readlink -f "$1"); shift
 SC=$(mktemp -d /tmp/seedtest_XXXXXX)
 rsync -a --exclude target --exclude .git /repo/ $SC/repo/
-rsync -a --exclude 'harness/target' --exclude .git --exclude replays /verif/ $SC/verif/
+mkdir -p $SC/verif && git -C /verif archive HEAD | tar -x -C $SC/verif   # committed state only (the lead keeps editing the working tree)
 ( cd $SC/repo && git apply "$PATCH" ) || { echo "PATCH DOES NOT APPLY"; rm -rf $SC; exit 3; }
 find $SC/verif/harness -name Cargo.toml -exec sed -i "s|\"/repo/|\"$SC/repo/|g" {} +
 sed -i "s|/repo/Cargo.lock|$SC/repo/Cargo.lock|g" $SC/verif/lib/vlib.py
